@@ -53,7 +53,26 @@ def make_strategy(name="L0", **kw):
     kw.setdefault("max_selection_exposure", None)
     kw.setdefault("max_live_trade_count", 1e6)
     kw.setdefault("multi_order_trades", True)
-    return BaseStrategy(market_filter={}, name=name, **kw)
+
+    class LiveStrategy(BaseStrategy):
+        """records the Market object each callback is handed (what the strategy itself works with)"""
+
+        def check_market_book(self, market, market_book):
+            self.handed[market.market_id] = market
+            return True
+
+        def process_market_book(self, market, market_book):
+            self.handed[market.market_id] = market
+
+        def process_orders(self, market, orders):
+            self.handed_orders[market.market_id] = market
+
+        def process_new_market(self, market, market_book):
+            self.new_markets.append(market.market_id)
+
+    st = LiveStrategy(market_filter={}, name=name, **kw)
+    st.handed, st.handed_orders, st.new_markets = {}, {}, []
+    return st
 
 
 def make_order(strategy, market_id, sel=701, side="BACK", price=3.0, size=10.0, persistence="PERSIST", otype="LIMIT", liability=10.0, trade=None, tif=None, min_fill=None, handicap=0):
